@@ -23,6 +23,20 @@ static inline void iora_rbmap_havoc_other(iora_rbmap *m)
 }
 static inline void iora_pcmap_havoc_other(iora_pcmap *m) { (void)m; }
 
+/* ---- std::make_shared<SyncReceiveBuffer>() (the tombstone in onClose): one fresh object supplied by the harness, initialised with the
+ * default member initialisers of struct SyncReceiveBuffer. A fresh buffer is empty at the current stream position. ---- */
+SyncReceiveBuffer *G_fresh; unsigned G_made;
+static inline SyncReceiveBuffer *iora_make_srb(Impl *im)
+{
+  IORA_ASSERT(G_made == 0, "at most one allocation per call (harness supplies one object)");
+  G_made++;
+  SyncReceiveBuffer *b = G_fresh;
+  b->data.lo = G_arrived; b->data.hi = G_arrived; b->data.guard = &im->syncMutex; b->guard = &im->syncMutex;
+  b->cv.n_one = 0; b->cv.n_all = 0;
+  b->hasData = false; b->closed = false; b->waiters = 0; b->flushing = false; b->overflow = false;
+  return b;
+}
+
 /* ---- R21: the user's DataCallback. Ghost stub: counts invocations and records the arguments.
  * HR-6 of the source ("no Transport lock is held during a user callback") is asserted here. ---- */
 unsigned G_cb_calls; SessionId G_cb_sid; iora_spos G_cb_pos; size_t G_cb_n;
